@@ -141,6 +141,38 @@ def lf_jobs(ctx, inv):
     return jobs
 
 
+def st_consts(**kw):
+    c = {'NT': 2, 'NG': 1, 'NCells': 1, 'NNodes': 3, 'MaxOps': 2, 'MaxFlush': 2, 'TryThr': 1, 'MaxRemain': 0,
+         'RetireAtHead': True, 'GuessOk': True, 'RequeueAll': True, 'ExitHandsOver': True}
+    c.update(kw)
+    return c
+
+
+ST_ACTIONS = ['Begin', 'StartExit', 'a_ld1', 'a_ld2', 'r_begin', 'er_begin', 'e_push', 'lr_begin', 'l_remove', 'l_tail', 'p_ts', 'p_proc', 'p_add', 'g_ts', 'g_steal', 'g_proc',
+              'g_ts2', 'g_add', 'op_done', 'x_cas', 'rt_hs', 'x_hand']
+
+
+def st_jobs(ctx, inv):
+    """stamp_it at the grain of its reclamation rule (thread_order_queue abstracted to its sequential meaning; thread_data step by step)"""
+    q = ctx.quick
+    mc = lambda name, **kw: tlc_mc(ctx, name, 'StampIt', st_consts(**kw.pop('c', {})), invariants=kw.pop('inv', inv), view='mcview', **kw)
+    jobs = [
+        lambda: mc('stamp_2t', workers=4, tmo=900, must_cover=ST_ACTIONS),
+        lambda: mc('stamp_2t_remain1', c={'MaxRemain': 1}, workers=4, tmo=900),
+        lambda: mc('stamp_toggle_retire_with_own_stamp', c={'RetireAtHead': False}, inv=['Safe'], workers=3, expect='violation'),
+        lambda: mc('stamp_toggle_tail_stamp_overshoots', c={'GuessOk': False}, inv=['Safe', 'TailBound'], workers=3, expect='violation'),
+        lambda: mc('stamp_toggle_requeue_first_chunk_only', c={'RequeueAll': False, 'NT': 3, 'MaxOps': 1, 'MaxFlush': 1}, inv=['Safe', 'OnLists'], workers=4, expect='violation'),
+        lambda: mc('stamp_toggle_exit_drops_list', c={'ExitHandsOver': False, 'MaxRemain': 1}, inv=['Safe', 'OnLists'], workers=3, expect='violation'),
+    ]
+    if not q:
+        jobs += [
+            lambda: mc('stamp_3t', c={'NT': 3, 'MaxOps': 1, 'MaxFlush': 1}, workers=10, tmo=2400, heap='24g'),
+            lambda: mc('stamp_2t_thresholds', c={'TryThr': 2, 'MaxRemain': 1, 'MaxOps': 3, 'NNodes': 4}, workers=10, tmo=2400, heap='24g'),
+            lambda: mc('stamp_2t_2guards', c={'NG': 2, 'NCells': 2, 'NNodes': 4, 'MaxOps': 2}, workers=10, tmo=2400, heap='24g'),
+        ]
+    return jobs
+
+
 def run_models(ctx, pid):
     q = ctx.quick
     inv = {'C01': ['Safe'], 'C02': ['Safe', 'NoLeak'], 'C18': ['Safe', 'SlotsConserved'], 'C17': ['Safe', 'NoLeak']}[pid]
@@ -171,6 +203,8 @@ def run_models(ctx, pid):
         jobs += qs_jobs(ctx, ['Safe'] if pid == 'C01' else ['Safe', 'NoLeak'])
     if pid in ('C01', 'C02', 'C17'):
         jobs += lf_jobs(ctx, ['Safe'] if pid == 'C01' else ['Safe', 'NoLeak', 'CountsOk'])
+    if pid in ('C01', 'C02', 'C17'):
+        jobs += st_jobs(ctx, ['Safe', 'TailBound'] if pid == 'C01' else ['Safe', 'TailBound', 'NoLeak', 'OnLists'])
     if pid in ('C01', 'C02', 'C18'):
         jobs += he_jobs(ctx, {'C01': ['Safe'], 'C02': ['Safe', 'NoLeak'], 'C18': ['Safe', 'SlotsConserved']}[pid])
     run_parallel(jobs, maxw=3)
